@@ -791,10 +791,10 @@ def differing_vectors(k, seed, plane):
     return [{"e": [ve[0][e0], ve[1][e1]], "q": qpair(q0, q1)}]
 
 
-OPT_ENTRIES_QUICK = ["poisson_p2_triangle", "elasticity_vp1_triangle", "hdiv_rt_triangle", "q1_quadrilateral", "facets_dg1_triangle",
+OPT_ENTRIES_QUICK = ["poisson_p2_triangle", "elasticity_vp1_triangle", "hdiv_rt_triangle", "facets_dg1_triangle",
                      "facets_p2_triangle_coeff", "all_types_triangle", "coefficient_dropout", "tensor_constants", "multi_degree",
-                     "diagonal_part", "nonlinear_math", "hyperelastic_small", "manifold_p1_triangle_3d", "facets_p1_tetrahedron",
-                     "q2_quadrilateral_sumfact", "poisson_p1_tetrahedron", "hcurl_n1_triangle", "p2_geometry_triangle",
+                     "diagonal_part", "nonlinear_math", "hyperelastic_small", "facets_p1_tetrahedron",
+                     "q2_quadrilateral_sumfact", "poisson_p1_tetrahedron", "hcurl_n1_triangle",
                      "dS_bilinear_triangle", "dS_bilinear_tetrahedron", "dS_bilinear_quadrilateral", "q1_quadrilateral_sumfact_bilinear",
                      "facets_p1_interval", "facets_q1_quadrilateral", "expr_with_argument", "expr_facet_points"]
 
